@@ -201,4 +201,29 @@ theorem checkDeduct_err_ne_fee {cfg : Cfg} {tx : Tx} {s : St} {e : Err}
         · cases h; decide
         · cases h
 
+/-! ### mempool mode vs block mode of the ante chain -/
+
+/-- The mempool-mode ante chain is the block-mode chain plus the fee sufficiency test: whatever
+passes the former passes the latter ON THE SAME STATE (unless the ante handler runs out of gas in
+the block — observed). -/
+theorem ante_check_ok_imp_deliver_ok {cfg : Cfg} {tx : Tx} {s : St} {p : St × Meter}
+    (hC : anteHandle cfg tx true s = .ok p) (hg : tx.oogAnte = false) :
+    ∃ q, anteHandle cfg tx false s = .ok q := by
+  unfold anteHandle at hC ⊢
+  simp only [hg, Bool.false_eq_true, if_false, false_and] at hC ⊢
+  split_ifs at hC ⊢ <;>
+  (cases hcd : checkDeductBaseFee cfg tx s with
+   | error e' => simp [hcd] at hC
+   | ok q => first | exact ⟨_, rfl⟩ | simp [hcd] at hC)
+
+theorem not_rejected_of_ante_ok {cfg : Cfg} {tx : Tx} {s : St} {q : St × Meter}
+    (hq : anteHandle cfg tx false s = .ok q) : ∀ e, (deliverTx cfg tx s).outcome ≠ .rejected e := by
+  intro e hrej
+  unfold deliverTx at hrej
+  simp only [hq] at hrej
+  split_ifs at hrej
+  split at hrej
+  · simp at hrej
+  · split at hrej <;> simp at hrej
+
 end PvProofs.TxfeeL
